@@ -24,6 +24,8 @@ CG = "hta.common.trace_call_graph"
 
 
 def run(db, chk) -> None:
+    from ..specs.discipline import check_shared_trace_untouched
+    check_shared_trace_untouched(db, chk, "C16.R-shared-trace")
     from ..specs.discipline import check_facade_stateless
     check_facade_stateless(db, chk, "C16.R-facade-stateless", ['get_frequent_cuda_kernel_sequences'])
     from ..specs.discipline import check_stateless
